@@ -9,7 +9,7 @@ RULE = ("case = list of reduced-form rules (end / production / consumption / dup
         "(S always the start; the library's reserved product names S and T included in some cases), <=2 index symbols, "
         "<=8 rules, possibly with a duplicated rule, a permutation of the list, and a small regular operand (regex a, b, "
         "$, 'a b' or an automaton with <=2 states). is_empty() must equal the reference function-table fixpoint for "
-        "optim 0..8 on the given order and on the permutation, on a second call of the same object, via bool(), and "
+        "optim 0..8 on the given order and on the permutation, on a second call of the same object and "
         "after remove_useless_rules(); for grammars with <=4 rules intersection(r).is_empty() and (g & r) must equal "
         "the emptiness of the reference product grammar. The reference is cross-checked in every case by a bounded "
         "brute-force derivation search (a derivation found while the table says empty = harness error). Non-trivial: "
@@ -70,9 +70,6 @@ def run_case(case):
                 again = g.is_empty()
                 if again is not truth:
                     failures.append(fail("is_empty_second_call", "wrong:%s" % again, {"order": oname, "optim": optim}))
-                    break
-                if bool(g) is truth:
-                    failures.append(fail("bool", "wrong", {"order": oname, "optim": optim}))
                     break
             if failures:
                 break
